@@ -139,6 +139,10 @@ def run(tier):
     oc = [(P, a) for a in (('M', '100', 900), ('F', 'HJ', 1000), ('m', 'lj', 800), ('M', '800', 700), ('F', 'JT', 1), ('M', '1500', 0), ('M', 'PV', -3), ('X', 'HJ', 500), ('M', 'XX', 500))]
     oc += [(P, a) for a in (('F', '10000', 915.5), ('F', '10000', 915), ('M', '5000', 700.4), ('M', '5000', 700), ('F', 'JT', 700.9), ('F', 'JT', 700), ('M', '100', 900.5),
                             ('M', '1500', 0.5), ('M', '1500', 1), ('F', 'HJ', 999.99))]
+    # marks between grid points (photo-finish thousandths, laser centimetres and millimetres) next to their grid neighbours
+    oc += [(S, a) for a in (('M', '100', 10.583), ('M', '100', 10.58), ('M', '100', 10.59), ('F', 'LJ', 6.957), ('F', 'LJ', 6.96), ('F', 'LJ', 6.95), ('F', 'HJ', 1.826), ('F', 'HJ', 1.83),
+                            ('M', '110H', 14.004), ('M', '110H', 14.0))]
+    oc += [(P, a) for a in (('M', '100', 955), ('F', 'LJ', 1157), ('F', 'HJ', 1010), ('M', '110H', 974))]
     oc += [(S, a) for a in (('M', '100', 10.5), ('F', 'HJ', 1.8), ('M', '800', 120.0), ('M', '800', 120.0, None, True), ('M', '100', 12.5, 52), ('m', 'lj', 6.95), ('M', '80H', 13.5, 60))]
     orderpass.part(rep, oc, 'performance-needed / score call-order pass')
     return rep.finish()
